@@ -1,6 +1,7 @@
 import StraxModel.Lemmas.PulseHits
 import StraxModel.Lemmas.PulseCut
 import StraxModel.Lemmas.PulseLinks
+import StraxModel.Lemmas.PulseBaseline
 /-
   Helper lemmas of theory T14 (property C18).  The three imported files hold the hit finder
   (`PulseHits`), the data reduction (`PulseCut`) and the record links (`PulseLinks`); this file adds
@@ -188,5 +189,84 @@ theorem cutOutsideHits_total (records : List Record) (hits : List HitRef) (le re
       (records.map fun r => List.replicate r.data.length (0 : Int)) hh
     simp only [hout]
     exact ⟨_, rfl⟩
+
+/-- The reduction in terms of a relation `F j i` ("`i` holds the fragment after the one at `j`") that agrees with
+`IsPrevFragment` on the array, when no continuing fragment at time 0 opens a channel. -/
+theorem cut_fragments_spec {records : List Record} {hits : List HitRef} {le re : Int} {out : List Record}
+    (F : Nat → Nat → Prop) (hF : ∀ j i, IsPrevFragment records (samplesPerRecord records) j i ↔ F j i)
+    (hne : records ≠ []) (hz : NoOrphanAtZero records) (e : cutOutsideHits records hits le re = .ok out) :
+    ∀ m r, records[m]? = some r →
+      ∃ d, out[m]? = some { r with data := d, reductionLevel := hitsOnly } ∧
+        ∀ j : Nat, j < r.data.length →
+          let spr := samplesPerRecord records
+          let keep := ∃ h ∈ hits,
+            (m = h.recordI ∧ j < r.length ∧ (h.left : Int) - le ≤ j ∧ (j : Int) < h.right + re)
+            ∨ (F m h.recordI ∧ (h.left : Int) - le ≤ (j : Int) - spr ∧ j < spr)
+            ∨ (F h.recordI m ∧ (j : Int) + spr < h.right + re ∧ j < spr)
+          (keep → d[j]? = r.data[j]?) ∧ (¬ keep → d[j]? = some 0) := by
+  obtain ⟨prev, next, hl, hlen, hspec⟩ := cutOutsideHits_spec hne e
+  obtain ⟨p1, p2⟩ := recordLinks_prev hl
+  obtain ⟨n1, n2⟩ := recordLinks_next' hl hz
+  intro m r hr
+  have hm : m < records.length := by
+    rcases Nat.lt_or_ge m records.length with h | h
+    · exact h
+    · simp [List.getElem?_eq_none h] at hr
+  obtain ⟨d, hd, -, hj⟩ := hspec m r hr
+  refine ⟨d, hd, ?_⟩
+  intro j hjl spr keep
+  have hiff : (∃ h ∈ hits, Covers records spr prev next le re h m j) ↔ keep := by
+    constructor
+    · rintro ⟨h, hh, hc⟩
+      refine ⟨h, hh, ?_⟩
+      rcases hc with ⟨h0, r', hr', h1, h2, h3⟩ | ⟨p, hp, hp1, hpm, h1, h2⟩ | ⟨p, hp, hp1, hpm, h1, h2⟩
+      · left
+        rw [← h0, hr] at hr'; simp only [Option.some.injEq] at hr'; subst hr'
+        exact ⟨h0, h1, h2, h3⟩
+      · right; left
+        have hk : h.recordI < records.length := by
+          rcases Nat.lt_or_ge h.recordI prev.length with h' | h'
+          · omega
+          · simp [List.getElem?_eq_none h'] at hp
+        rcases (p2 _ hk).2 with h' | ⟨j', h'⟩
+        · rw [hp] at h'; simp only [Option.some.injEq] at h'; exact absurd h' hp1
+        · rw [hp] at h'; simp only [Option.some.injEq] at h'; subst h'
+          have : m = j' := by omega
+          subst this
+          exact ⟨(hF _ _).1 (((p2 _ hk).1 m).1 hp), h1, h2⟩
+      · right; right
+        have hk : h.recordI < records.length := by
+          rcases Nat.lt_or_ge h.recordI next.length with h' | h'
+          · omega
+          · simp [List.getElem?_eq_none h'] at hp
+        rcases (n2 _ hk).2 with h' | ⟨j', h'⟩
+        · rw [hp] at h'; simp only [Option.some.injEq] at h'; exact absurd h' hp1
+        · rw [hp] at h'; simp only [Option.some.injEq] at h'; subst h'
+          have : m = j' := by omega
+          subst this
+          exact ⟨(hF _ _).1 (((n2 _ hk).1 m).1 hp), h1, h2⟩
+    · rintro ⟨h, hh, hc⟩
+      refine ⟨h, hh, ?_⟩
+      rcases hc with ⟨h0, h1, h2, h3⟩ | ⟨hp, h1, h2⟩ | ⟨hp, h1, h2⟩
+      · left; exact ⟨h0, r, by rw [← h0]; exact hr, h1, h2, h3⟩
+      · right; left
+        have hp := (hF _ _).2 hp
+        have hk : h.recordI < records.length := by
+          obtain ⟨a, b, -, hb, -⟩ := hp
+          rcases Nat.lt_or_ge h.recordI records.length with h' | h'
+          · exact h'
+          · simp [List.getElem?_eq_none h'] at hb
+        exact ⟨(m : Int), ((p2 _ hk).1 m).2 hp, by omega, by simp, h1, h2⟩
+      · right; right
+        have hp := (hF _ _).2 hp
+        have hk : h.recordI < records.length := by
+          obtain ⟨a, b, ha, -, -⟩ := hp
+          rcases Nat.lt_or_ge h.recordI records.length with h' | h'
+          · exact h'
+          · simp [List.getElem?_eq_none h'] at ha
+        exact ⟨(m : Int), ((n2 _ hk).1 m).2 hp, by omega, by simp, h1, h2⟩
+  have := hj j hjl
+  rw [hiff] at this
+  exact this
 
 end Strax.Pulse
